@@ -1,6 +1,6 @@
 /- Line-protocol driver for M5c Newton (C16 / C01 / C02).
 
-   newton <maxiter> <tol> <rho> <btMaxiter> <bt 0/1> <btStart> <c1> <empty 0/1> <timeAt|-> <norms> <linOk>
+   newton <maxiter> <tol> <rho> <btMaxiter> <bt 0/1> <btStart> <c1> <empty 0/1> <timeAt|-> <zeroSafe 0/1> <norms> <linOk>
      tol, rho, c1 : exact rationals p/q (the doubles the solver uses)
      norms : comma separated p/q or `nan`, in the order `model.evaluate_residuals()` was called, or `-`
      linOk : one digit per outer iteration (1 = spsolve succeeded, 0 = MatrixRankWarning), or `-` (missing = succeeded)
@@ -32,10 +32,10 @@ def msgName : Msg → String
 
 def handle (line : String) : String :=
   match line.trimAscii.toString.splitOn " " with
-  | ["newton", mi, tol, rho, bm, bt, bs, c1, em, ta, norms, lin] =>
+  | ["newton", mi, tol, rho, bm, bt, bs, c1, em, ta, zs, norms, lin] =>
     match mi.toNat?, parseRat tol, parseRat rho, bm.toNat?, bs.toNat?, parseRat c1, parseNorms norms, parseBits lin with
     | some mi, some tol, some rho, some bm, some bs, some c1, some norms, some lin =>
-      let o : Opts := { maxiter := mi, tol, rho, btMaxiter := bm, bt := bt == "1", btStartIter := bs, c1 }
+      let o : Opts := { maxiter := mi, tol, rho, btMaxiter := bm, bt := bt == "1", btStartIter := bs, c1, zeroSafe := zs == "1" }
       let t : NTrace := { norms, linOk := lin, timeAt := if ta == "-" then none else ta.toNat? }
       let r := solve (traceWorld t) o (em == "1") 0
       let small := match r.1 with
